@@ -27,6 +27,7 @@ RULE = (
     ' Round 6: sources of an SMSimfile subclass; the same source made negative after a successful conversion.'
     ' Round 7: attribute-level identity (extradata lists), negatives that are -0.0 as floats.'
     ' Round 8: negative DELAYS (must convert).'
+    ' Round 9: chart template with an OFFSET only; chart template edited between two conversions.'
 )
 ASSUMPTIONS = ["C01's generator and the gap guard", "TimingData / NoteData as readers (C07, C14)"]
 MONITORS = ["result_content", "timing_equal", "notes_equal", "unmodified", "no_sharing", "second_call_same", "reload", "reload_autodetect", "negative_refused", "negative_refused_after_an_earlier_conversion", "template_edited_between_calls"]
